@@ -12,7 +12,7 @@ PROP = 'C01'
 NSLICES = 64
 
 BFS = {'quick': 2, 'thorough': 5}          # depth of the explicit-state search over arbitrary action sequences (fbmc/bfs.py)
-BFS_CLAUSES = ('eqref.',)
+BFS_CLAUSES = ('eqref.', 'twin.')
 
 
 # every query on names no file can have (embedded NUL): exists/is_* say False, open() raises ValueError
